@@ -68,3 +68,80 @@ def run_impl_create(desc, files):
         return suitio.impl_create(desc, cwd=d)
     finally:
         clear_files(files, d)
+
+
+def run_cli_create(desc, files, fmt):
+    """through the CLI entry point cmd_create.main with a real JSON / YAML description file"""
+    import json
+    import yaml
+    from suit_generator import cmd_create
+
+    d = scratch_dir()
+    write_files(files, d)
+    inp = os.path.join(d, "input." + fmt)
+    outp = os.path.join(d, "out.suit")
+    with open(inp, "w", encoding="utf-8") as fh:
+        if fmt == "json":
+            json.dump(desc, fh)
+        else:
+            yaml.dump(desc, fh, sort_keys=False, allow_unicode=True)
+    old = os.getcwd()
+    try:
+        os.chdir(d)
+        if os.path.exists(outp):
+            os.unlink(outp)
+        cmd_create.main(input_file=inp, input_format="AUTO", output_file=outp)
+        with open(outp, "rb") as fh:
+            return {"ok": fh.read().hex()}
+    except BaseException as e:  # noqa
+        from suit_generator.exceptions import SUITError
+        # the CLI wraps ValueError / FileNotFoundError into SUITError
+        if isinstance(e, SUITError) and e.__cause__ is not None:
+            return {"err": suitio.err_class(e.__cause__)}
+        return {"err": suitio.err_class(e)}
+    finally:
+        os.chdir(old)
+        clear_files(files, d)
+        for p in (inp, outp):
+            try:
+                os.unlink(p)
+            except OSError:
+                pass
+
+
+def manifest_len(envelope_bytes: bytes) -> int:
+    from . import cbortree as ct
+    root = ct.decode(envelope_bytes)
+    for k, v in root.children[0].children:
+        if k.major == 0 and k.arg == 3:
+            return v.arg
+    return -1
+
+
+def case_with_manifest_len(seed, index, target, create):
+    """a generated description whose bstr-wrapped manifest content is exactly `target` bytes long (None if not reached)"""
+    pad = 0
+    rng = random.Random(f"{seed}:{index}:min")
+    for _ in range(8):
+        try:
+            if target < 200:
+                from .gen_desc import ALGS
+                desc = {"SUIT_Envelope_Tagged": {
+                    "suit-authentication-wrapper": {"SuitDigest": {"suit-digest-algorithm-id": ALGS[index % 5], "suit-digest-bytes": "abcd"}},
+                    "suit-manifest": {"suit-manifest-version": 1, "suit-manifest-sequence-number": index % 7,
+                                      "suit-reference-uri": "u" * max(0, pad)}}}
+                files, feats = {}, ["minimal"]
+            else:
+                desc, files, feats = make_case(seed, index, depth=0, pad=pad)
+        except ChildFailed:
+            return None
+        r = create(desc, files)
+        if "ok" not in r:
+            return None
+        n = manifest_len(bytes.fromhex(r["ok"]))
+        if n == target:
+            return desc, files, feats
+        pad = pad + (target - n)
+        if pad < 0:
+            return None
+    return None
